@@ -5,8 +5,9 @@ Local Open Scope N_scope.
 
 Section WithMethods.
 Variable mof : N -> N.
+Variable qof : N -> qargs.
 
-Lemma run_app s evs evs' : run mof s (evs ++ evs') = run mof (run mof s evs) evs'.
+Lemma run_app s evs evs' : run mof qof s (evs ++ evs') = run mof qof (run mof qof s evs) evs'.
 Proof. unfold run. apply fold_left_app. Qed.
 
 Lemma wire_reqs_app w w' : wire_reqs (w ++ w') = wire_reqs w ++ wire_reqs w'.
@@ -46,7 +47,7 @@ Proof.
   rewrite !map_app, H1. cbn [map]. now rewrite <- !app_assoc.
 Qed.
 
-Lemma inv_pump all s : Inv all s -> Inv all (pump mof s).
+Lemma inv_pump all s : Inv all s -> Inv all (pump mof qof s).
 Proof.
   intros HI. unfold pump.
   destruct (waited s) eqn:Hw; [exact HI|].
@@ -73,7 +74,8 @@ Proof.
   assert (Hu0 : u = []) by (destruct Hu as [|(X & _)]; [assumption | congruence]). subst u.
   unfold inflight in *. rewrite Hw in *. rewrite !app_nil_r in H3.
   unfold Inv, deliver, inflight. cbn [queue waited latest responses redirects sent wire].
-  assert (E : origin {| e_status := st; e_tag := latest s; e_errored := err; e_history := redirects s |}
+  assert (E : origin {| e_status := st; e_tag := latest s; e_errored := err; e_history := redirects s;
+                        e_target := rq_target s; e_targets := rtargets s |}
               = match redirects s with h :: _ => snd h | [] => latest s end).
   { unfold origin. cbn [e_history e_tag]. reflexivity. }
   split4.
@@ -119,22 +121,22 @@ Proof.
 Qed.
 
 Lemma inv_step all s e :
-  Inv all s -> Inv (all ++ match e with Enq t => [t] | Pass _ => [] end) (step mof s e).
+  Inv all s -> Inv (all ++ match e with Enq t => [t] | Pass _ => [] end) (step mof qof s e).
 Proof.
   intros HI. destruct e as [t|o]; cbn [step].
   - now apply inv_enq.
   - rewrite app_nil_r. pose proof (inv_pump all s HI) as HP.
     destruct o as [r|]; [|assumption].
-    destruct (waited (pump mof s)) eqn:Hw; [|assumption].
-    destruct (sent (pump mof s)) eqn:Hs; [|assumption].
-    cbn [andb]. destruct (readable (pump mof s) r); [now apply inv_complete | assumption].
+    destruct (waited (pump mof qof s)) eqn:Hw; [|assumption].
+    destruct (sent (pump mof qof s)) eqn:Hs; [|assumption].
+    cbn [andb]. destruct (readable (pump mof qof s) r); [now apply inv_complete | assumption].
 Qed.
 
-Lemma inv_run : forall evs all s, Inv all s -> Inv (all ++ enqs evs) (run mof s evs).
+Lemma inv_run : forall evs all s, Inv all s -> Inv (all ++ enqs evs) (run mof qof s evs).
 Proof.
   induction evs as [|e evs IH]; intros all s HI; cbn [run fold_left enqs].
   - now rewrite app_nil_r.
-  - apply (inv_step all s e) in HI. apply IH in HI. fold (run mof (step mof s e) evs).
+  - apply (inv_step all s e) in HI. apply IH in HI. fold (run mof qof (step mof qof s e) evs).
     destruct e; cbn [enqs]; [now rewrite <- app_assoc in HI | now rewrite app_nil_r in HI].
 Qed.
 
@@ -156,7 +158,7 @@ Qed.
 (* FIFO, one entry per request, at most one in flight; requests reach the wire
    in queue order and at most one of them is unanswered. *)
 Theorem fifo sec rd m evs :
-  let s := run mof (init_m sec rd m) evs in
+  let s := run mof qof (init_m sec rd m) evs in
   map Some (enqs evs) = map origin (responses s) ++ inflight s ++ map Some (queue s)
   /\ (length (inflight s) <= 1)%nat
   /\ (exists rest, enqs evs = wire_reqs (wire s) ++ rest)
@@ -179,7 +181,7 @@ Qed.
 Definition InvS (s : cstate) : Prop :=
   https s = true /\ Forall (fun w => w_https w = true) (wire s).
 
-Lemma invS_pump s : InvS s -> InvS (pump mof s).
+Lemma invS_pump s : InvS s -> InvS (pump mof qof s).
 Proof.
   intros [H1 H2]. unfold pump. destruct (waited s); [now split|].
   destruct (queue s); [now split|]. split; cbn [https wire]; [assumption|].
@@ -203,19 +205,19 @@ Proof.
     constructor; [reflexivity | constructor].
 Qed.
 
-Lemma invS_step s e : InvS s -> InvS (step mof s e).
+Lemma invS_step s e : InvS s -> InvS (step mof qof s e).
 Proof.
   intros H. destruct e as [t|o]; cbn [step]; [exact H|].
   apply invS_pump in H. destruct o as [r|]; [|assumption].
-  destruct (waited (pump mof s) && sent (pump mof s) && readable (pump mof s) r); [now apply invS_complete | assumption].
+  destruct (waited (pump mof qof s) && sent (pump mof qof s) && readable (pump mof qof s) r); [now apply invS_complete | assumption].
 Qed.
 
 Theorem https_kept rd m evs :
-  let s := run mof (init_m true rd m) evs in
+  let s := run mof qof (init_m true rd m) evs in
   https s = true /\ Forall (fun w => w_https w = true) (wire s).
 Proof.
   cbn zeta. unfold run.
-  assert (G : forall evs s, InvS s -> InvS (fold_left (step mof) evs s)).
+  assert (G : forall evs s, InvS s -> InvS (fold_left (step mof qof) evs s)).
   { induction evs0 as [|e evs0 IH]; intros s H; [assumption|]. cbn [fold_left]. apply IH. now apply invS_step. }
   apply G. split; [reflexivity | constructor].
 Qed.
@@ -276,25 +278,25 @@ Proof.
     + unfold InvH. cbn [redirects latest responses]. auto.
 Qed.
 
-Lemma invH_step all s e : Inv all s -> InvH s -> InvH (step mof s e).
+Lemma invH_step all s e : Inv all s -> InvH s -> InvH (step mof qof s e).
 Proof.
   intros HI H. destruct e as [t|o]; cbn [step].
   - exact H.
-  - assert (HP : InvH (pump mof s)).
+  - assert (HP : InvH (pump mof qof s)).
     { unfold pump. destruct (waited s) eqn:Hw; [exact H|]. destruct (queue s); [exact H|].
       destruct HI as (_ & H2 & _). specialize (H2 Hw). destruct H as (A & B & C & D).
       unfold InvH. cbn [redirects latest responses]. rewrite H2.
       split; [constructor|]. split; [exact I|]. split; [congruence | assumption]. }
     destruct o as [r|]; [|assumption].
-    destruct (waited (pump mof s) && sent (pump mof s) && readable (pump mof s) r); [now apply invH_complete | assumption].
+    destruct (waited (pump mof qof s) && sent (pump mof qof s) && readable (pump mof qof s) r); [now apply invH_complete | assumption].
 Qed.
 
 Theorem history_attached sec rd m evs :
-  Forall good_entry (responses (run mof (init_m sec rd m) evs)).
+  Forall good_entry (responses (run mof qof (init_m sec rd m) evs)).
 Proof.
-  assert (G : forall evs all s, Inv all s -> InvH s -> InvH (run mof s evs)).
+  assert (G : forall evs all s, Inv all s -> InvH s -> InvH (run mof qof s evs)).
   { induction evs0 as [|e evs0 IH]; intros all s HI H; [assumption|]. cbn [run fold_left].
-    fold (run mof (step mof s e) evs0). eapply IH; [eapply inv_step; eassumption | eapply invH_step; eassumption]. }
+    fold (run mof qof (step mof qof s e) evs0). eapply IH; [eapply inv_step; eassumption | eapply invH_step; eassumption]. }
   destruct (G evs [] (init_m sec rd m) (inv_init sec rd m)) as (_ & _ & _ & D); [|exact D].
   unfold InvH, init_m. cbn. split; [constructor|]. split; [exact I|]. split; [congruence | constructor].
 Qed.
@@ -304,7 +306,12 @@ Qed.
    exactly the hops so far *)
 Lemma complete_cases s r :
   (exists err c, complete s r = deliver s (rp_status r) err c)
-  \/ (redirects (complete s r) = redirects s ++ [(rp_status r, latest s)]
+  \/ (exists l, rp_loc r = Some l
+      /\ redirects (complete s r) = redirects s ++ [(rp_status r, latest s)]
+      /\ rtargets (complete s r) = rtargets s ++ [rq_target s]
+      /\ rq_target (complete s r) = (true, rp_id r, l_query l)
+      /\ (sent (complete s r) = true ->
+          exists w, wire (complete s r) = wire s ++ [w] /\ w_item w = WRedir (rp_id r) /\ w_q w = l_query l)
       /\ responses (complete s r) = responses s /\ waited (complete s r) = true
       /\ is_redirect (rp_status r) = true /\ redirectable s = true).
 Proof.
@@ -313,9 +320,54 @@ Proof.
   destruct (is_redirect (rp_status r)) eqn:E; [|left; eauto].
   destruct (rp_loc r) as [l|]; [|left; eauto].
   match goal with |- context [if ?c then _ else _] => destruct c end.
-  - right. cbn [redirects responses waited]. auto.
+  - right. exists l. cbn [redirects responses waited rtargets rq_target sent wire].
+    repeat (split; [reflexivity|]). split; [|auto].
+    destruct (cut s || rp_close r); cbn [negb]; [discriminate|]. intros _.
+    eexists. split; [reflexivity|]. split; reflexivity.
   - match goal with |- context [if ?c then _ else _] => destruct c end; [left; eauto|].
-    right. cbn [redirects responses waited]. auto.
+    right. exists l. cbn [redirects responses waited rtargets rq_target sent wire].
+    repeat (split; [reflexivity|]). split; [|auto].
+    intros _. eexists. split; [reflexivity|]. split; reflexivity.
+Qed.
+
+(* a delivered entry names the request it answers and the request of every hop *)
+Lemma deliver_targets s st err c :
+  exists e, responses (deliver s st err c) = responses s ++ [e]
+    /\ e_target e = rq_target s /\ e_targets e = rtargets s /\ e_history e = redirects s.
+Proof. eexists. split; [reflexivity|]. cbn. auto. Qed.
+
+(* every original request goes on the wire with exactly its own query arguments *)
+Definition InvQ (s : cstate) : Prop :=
+  Forall (fun w => match w_item w with WReq t => w_q w = qof t | WRedir _ => True end) (wire s).
+
+Lemma invQ_step s e : InvQ s -> InvQ (step mof qof s e).
+Proof.
+  intros H. destruct e as [t|o]; cbn [step]; [exact H|].
+  assert (HP : InvQ (pump mof qof s)).
+  { unfold pump. destruct (waited s); [exact H|]. destruct (queue s); [exact H|].
+    unfold InvQ. cbn [wire]. destruct (cut s); [exact H|]. apply Forall_app. split; [exact H|].
+    constructor; [reflexivity | constructor]. }
+  destruct o as [r|]; [|assumption].
+  destruct (waited (pump mof qof s) && sent (pump mof qof s) && readable (pump mof qof s) r); [|assumption].
+  set (p := pump mof qof s) in *. unfold complete.
+  assert (D : forall st e c, InvQ (deliver p st e c)) by (intros; exact HP).
+  destruct (redirectable p && is_redirect (rp_status r)); [|apply D].
+  destruct (rp_loc r) as [l|]; [|apply D].
+  match goal with |- context [if ?c then _ else _] => destruct c end.
+  - unfold InvQ. cbn [wire]. destruct (cut p || rp_close r); [exact HP|].
+    apply Forall_app. split; [exact HP|]. constructor; [exact I | constructor].
+  - match goal with |- context [if ?c then _ else _] => destruct c end; [apply D|].
+    unfold InvQ. cbn [wire]. apply Forall_app. split; [exact HP|]. constructor; [exact I | constructor].
+Qed.
+
+Theorem wire_queries sec rd m evs :
+  Forall (fun w => match w_item w with WReq t => w_q w = qof t | WRedir _ => True end)
+         (wire (run mof qof (init_m sec rd m) evs)).
+Proof.
+  assert (G : forall evs s, InvQ s -> InvQ (run mof qof s evs)).
+  { induction evs0 as [|e evs0 IH]; intros s H; [assumption|]. cbn [run fold_left].
+    fold (run mof qof (step mof qof s e) evs0). apply IH. now apply invQ_step. }
+  apply G. constructor.
 Qed.
 
 (* ------------------------------------------------------------------ *)
@@ -326,20 +378,20 @@ Definition InvM (s : cstate) : Prop :=
   waited s = true ->
   rs_method s = rq_method s /\ (forall t, inflight s = [Some t] -> rq_method s = mof t).
 
-Lemma invM_step all s e : Inv all s -> InvM s -> InvM (step mof s e).
+Lemma invM_step all s e : Inv all s -> InvM s -> InvM (step mof qof s e).
 Proof.
   intros HI HM. destruct e as [t|o]; cbn [step].
   - exact HM.
-  - assert (HP : InvM (pump mof s)).
+  - assert (HP : InvM (pump mof qof s)).
     { unfold pump. destruct (waited s) eqn:Hw; [exact HM|]. destruct (queue s) as [|t q]; [exact HM|].
       destruct HI as (_ & H2 & _). specialize (H2 Hw).
       unfold InvM, inflight. cbn [waited redirects latest rs_method rq_method]. rewrite H2.
       intros _. split; [reflexivity|]. intros t' E. now inversion E. }
     destruct o as [r|]; [|assumption].
-    destruct (waited (pump mof s)) eqn:Hw; [|assumption]. cbn [andb].
-    destruct (sent (pump mof s) && readable (pump mof s) r); [|assumption].
+    destruct (waited (pump mof qof s)) eqn:Hw; [|assumption]. cbn [andb].
+    destruct (sent (pump mof qof s) && readable (pump mof qof s) r); [|assumption].
     specialize (HP Hw). destruct HP as [E1 E2]. unfold inflight in E2. rewrite Hw in E2.
-    set (p := pump mof s) in *. unfold complete.
+    set (p := pump mof qof s) in *. unfold complete.
     assert (D : forall st e c, InvM (deliver p st e c)) by (intros st e c X; discriminate X).
     destruct (redirectable p && is_redirect (rp_status r)); [|apply D].
     destruct (rp_loc r) as [l|]; [|apply D].
@@ -352,21 +404,21 @@ Proof.
 Qed.
 
 Theorem method_tracks sec rd m evs :
-  let s := run mof (init_m sec rd m) evs in
+  let s := run mof qof (init_m sec rd m) evs in
   waited s = true ->
   rs_method s = rq_method s /\ (forall t, inflight s = [Some t] -> rq_method s = mof t).
 Proof.
   cbn zeta.
-  assert (G : forall evs all s, Inv all s -> InvM s -> InvM (run mof s evs)).
+  assert (G : forall evs all s, Inv all s -> InvM s -> InvM (run mof qof s evs)).
   { induction evs0 as [|e evs0 IH]; intros all s HI H; [assumption|]. cbn [run fold_left].
-    fold (run mof (step mof s e) evs0). eapply IH; [eapply inv_step; eassumption | eapply invM_step; eassumption]. }
+    fold (run mof qof (step mof qof s e) evs0). eapply IH; [eapply inv_step; eassumption | eapply invM_step; eassumption]. }
   apply (G evs [] (init_m sec rd m) (inv_init sec rd m)). intros X. discriminate X.
 Qed.
 
 (* hence a consumed reply is always readable: no reply is ever left half read or
    over-read because of the method, for every schedule *)
 Corollary always_readable sec rd m evs r :
-  let s := run mof (init_m sec rd m) evs in
+  let s := run mof qof (init_m sec rd m) evs in
   waited s = true -> readable s r = true.
 Proof.
   cbn zeta. intros Hw. destruct (method_tracks sec rd m evs Hw) as [E _].
